@@ -2090,3 +2090,312 @@ Lemma cached_dir_fixed :
   view_at (fst (run0 cfg_fixed os_cached_dir)) [b "r"; b "victim"] = view_at fs0 [b "r"; b "victim"] /\
   view_at (fst (run0 cfg_fixed os_cached_dir)) [b "r"; b "w"; b "a"; b "e"] = VSym (b "q/..").
 Proof. vm_compute. repeat split. Qed.
+
+(* ---------- a regular file where the working directory should be ---------- *)
+(* (a named blob whose title denotes the not yet existing working directory creates it) *)
+
+Lemma walk_at_file f i : forall ns fuel nl cur follow,
+  lexreal f cur ns = true -> ns <> [] -> lookup f (cur ++ ns) = Some (NFile i) ->
+  match walk fuel f nl cur (Nms ns) follow with
+  | WFile p j => p = cur ++ ns /\ j = i
+  | WErrNoEnt => True
+  | WErr => True
+  | _ => False
+  end.
+Proof.
+  induction ns as [|c r IH]; intros fuel nl cur follow HL Hne Lf; [contradiction|].
+  destruct fuel as [|fuel]; [exact Logic.I|]. simpl. simpl in HL.
+  destruct r as [|c2 r'].
+  - rewrite Lf. split; reflexivity.
+  - destruct (lookup f (cur ++ [c])) as [[|i0|d a cs]|] eqn:L; try exact Logic.I; try discriminate.
+    specialize (IH fuel nl (cur ++ [c]) follow HL). rewrite <- app_assoc in IH.
+    apply IH; [discriminate | exact Lf].
+Qed.
+
+Record InvF (wd : path) (f : fsys) : Prop := mkInvF {
+  invF_ne : wd <> [];
+  invF_anc : RealD f [] (removelast wd);
+  invF_file : exists i, lookup f wd = Some (NFile i) /\ forall q, lookup f q = Some (NFile i) -> q = wd;
+  invF_none : forall p, sinside wd p -> lookup f p = None;
+  invF_fresh : forall p i, lookup f p = Some (NFile i) -> i < nexti f
+}.
+
+Definition PreInv3 (wd : path) (f : fsys) : Prop := Inv wd f \/ Inv0 wd f \/ InvF wd f.
+Definition Keeps3 (wd : path) (f f' : fsys) : Prop := PreInv3 wd f' /\ same_outside wd f f'.
+
+Lemma Keeps3_refl wd f : PreInv3 wd f -> Keeps3 wd f f.
+Proof. intro H. split; [exact H | apply same_outside_refl]. Qed.
+
+Lemma Keeps0_Keeps3 wd f f' : Keeps0 wd f f' -> Keeps3 wd f f'.
+Proof. intros [[I|I] S]; (split; [|exact S]); [left | right; left]; exact I. Qed.
+
+Lemma Keeps3_trans wd f g h : Keeps3 wd f g -> Keeps3 wd g h -> Keeps3 wd f h.
+Proof. intros [_ A] [I B]. split; [exact I | eapply same_outside_trans; eauto]. Qed.
+
+Lemma wd_lexreal wd f : RealD f [] (removelast wd) -> lexreal f [] wd = true.
+Proof. apply lexreal_of_parent. Qed.
+
+(* with a file at the working directory's place nothing below it can be created *)
+Lemma ensure_write_dir_file wd f rel rawdir :
+  InvF wd f -> ensure_write_dir cfg_fixed wd f (wd ++ rel) rawdir = None.
+Proof.
+  intros IF. unfold ensure_write_dir. cbn [fixN cfg_fixed].
+  assert (SP : strip_prefix wd (wd ++ rel) = Some rel) by now apply strip_prefix_spec.
+  rewrite SP. pose proof (invF_ne _ _ IF) as Hne.
+  destruct (invF_file _ _ IF) as (i & Li & _).
+  assert (M : mkdir_all f (Nms wd) c11_write_dir_perm = None).
+  { unfold mkdir_all. rewrite (wd_snoc wd Hne).
+    destruct (mkdir_prefixes_skip f c11_write_dir_perm (removelast wd) [] [last wd []]) as [E|E].
+    - simpl. exact (invF_anc _ _ IF).
+    - simpl app in E. change (Nms []) with (@nil comp) in E. rewrite E.
+      cbn [Nms map mkdir_prefixes]. fold (Nms (removelast wd)). rewrite Nms_snoc, <- (wd_snoc wd Hne).
+      pose proof (wd_lexreal wd f (invF_anc _ _ IF)) as HL.
+      pose proof (walk_at_file f i wd FUEL NLINK [] true HL Hne Li) as W1.
+      pose proof (walk_at_file f i wd FUEL NLINK [] false HL Hne Li) as W2.
+      destruct (walk FUEL f NLINK [] (Nms wd) true); try contradiction; try reflexivity;
+        (destruct (walk FUEL f NLINK [] (Nms wd) false); try contradiction; reflexivity).
+    - simpl app in E. change (Nms []) with (@nil comp) in E. exact E. }
+  rewrite M. reflexivity.
+Qed.
+
+Lemma outside_not_wd (wd q : path) : inside wd q = false -> q <> wd.
+Proof. intros H ->. rewrite inside_refl in H. discriminate. Qed.
+
+Lemma prefix_not_wd (wd q r : path) : wd <> [] -> removelast wd = q ++ r -> q <> wd.
+Proof.
+  intros Hne E ->. apply (f_equal (@length _)) in E. rewrite app_length in E.
+  assert (L : length (removelast wd) < length wd).
+  { rewrite (wd_snoc wd Hne) at 2. rewrite app_length. simpl. lia. }
+  lia.
+Qed.
+
+(* os.Create at the working directory's own path when it is missing or a regular file *)
+Lemma write_wd_keeps3 wd f w f2 :
+  Inv0 wd f \/ InvF wd f -> write_at f (Nms wd) w 438 = Some f2 ->
+  InvF wd f2 /\ same_outside wd f f2.
+Proof.
+  intros [I0|IF] H; unfold write_at in H.
+  - pose proof (inv0_ne _ _ I0) as Hne.
+    assert (HL : lexreal f [] wd = true) by (apply wd_lexreal; exact (inv0_anc _ _ I0)).
+    assert (Ln : lookup f wd = None) by (apply (inv0_none _ _ I0); apply inside_refl).
+    assert (Hns : nosym f wd) by (apply nosym_of_lookup; [exact HL | intros; rewrite Ln; discriminate]).
+    rewrite (walk_follow_agrees f FUEL NLINK [] (Nms wd) Hns) in H.
+    pose proof (walk_at_none f wd FUEL NLINK [] false HL Hne Ln) as W.
+    destruct (walk FUEL f NLINK [] (Nms wd) false); try contradiction; try discriminate.
+    simpl in W. subst p. injection H as <-. split.
+    + constructor.
+      * exact Hne.
+      * intros q r E Hq. simpl. rewrite lookup_newfile, (path_eqb_neq wd q); [apply (inv0_anc _ _ I0 q r E Hq)|].
+        intro E'. apply (prefix_not_wd wd q r Hne E). now symmetry.
+      * exists (nexti f). split; [rewrite lookup_newfile, path_eqb_refl; reflexivity|].
+        intros q. rewrite lookup_newfile. destruct (path_eqb wd q) eqn:Eq; [apply path_eqb_spec in Eq; now intros _|].
+        intro L. apply (inv0_fresh _ _ I0) in L. lia.
+      * intros p Hp. rewrite lookup_newfile, (path_eqb_neq wd p).
+        -- apply (inv0_none _ _ I0). now apply sinside_inside.
+        -- intros ->. destruct Hp as (x & r & E). apply (f_equal (@length _)) in E. rewrite app_length in E. simpl in E. lia.
+      * intros p i. rewrite lookup_newfile. unfold new_file at 1; simpl. destruct (path_eqb wd p).
+        -- intros [= <-]. lia.
+        -- intro L. apply (inv0_fresh _ _ I0) in L. lia.
+    + intros q Hq. unfold view_at. rewrite lookup_newfile, (path_eqb_neq wd q) by (intros ->; rewrite inside_refl in Hq; discriminate).
+      destruct (lookup f q) as [[|j|]|] eqn:E; try reflexivity.
+      f_equal. unfold content, new_file; simpl. destruct (Nat.eqb (nexti f) j) eqn:E2; [|reflexivity].
+      apply Nat.eqb_eq in E2. apply (inv0_fresh _ _ I0) in E. lia.
+  - pose proof (invF_ne _ _ IF) as Hne.
+    destruct (invF_file _ _ IF) as (i & Li & Ui).
+    assert (HL : lexreal f [] wd = true) by (apply wd_lexreal; exact (invF_anc _ _ IF)).
+    assert (Hns : nosym f wd) by (apply nosym_of_lookup; [exact HL | intros; rewrite Li; discriminate]).
+    rewrite (walk_follow_agrees f FUEL NLINK [] (Nms wd) Hns) in H.
+    pose proof (walk_at_file f i wd FUEL NLINK [] false HL Hne Li) as W.
+    destruct (walk FUEL f NLINK [] (Nms wd) false); try contradiction; try discriminate.
+    destruct W as [-> ->]. injection H as <-. split.
+    + constructor.
+      * exact Hne.
+      * exact (invF_anc _ _ IF).
+      * exists i. split; [exact Li | exact Ui].
+      * exact (invF_none _ _ IF).
+      * exact (invF_fresh _ _ IF).
+    + intros q Hq. unfold view_at. rewrite lookup_setcont.
+      destruct (lookup f q) as [[|j|]|] eqn:E; try reflexivity.
+      f_equal. apply content_setcont_other. intros ->. apply Ui in E. subst q.
+      rewrite inside_refl in Hq. discriminate.
+Qed.
+
+(* the failed verification removes the file again: the working directory is missing again *)
+Lemma remove_wd_keeps3 wd f f3 :
+  InvF wd f -> remove_at f wd = Some f3 -> Inv0 wd f3 /\ same_outside wd f f3.
+Proof.
+  intros IF H. unfold remove_at, awalk in H.
+  pose proof (invF_ne _ _ IF) as Hne.
+  destruct (invF_file _ _ IF) as (i & Li & Ui).
+  assert (HL : lexreal f [] wd = true) by (apply wd_lexreal; exact (invF_anc _ _ IF)).
+  pose proof (walk_at_file f i wd FUEL NLINK [] false HL Hne Li) as W.
+  destruct (walk FUEL f NLINK [] (Nms wd) false); try contradiction; try discriminate.
+  destruct W as [-> ->]. injection H as <-. split.
+  - constructor.
+    + exact Hne.
+    + intros q r E Hq. simpl. rewrite lookup_delent, (path_eqb_neq wd q); [apply (invF_anc _ _ IF q r E Hq)|].
+      intro E'. apply (prefix_not_wd wd q r Hne E). now symmetry.
+    + intros p Hp. rewrite lookup_delent. destruct (path_eqb wd p) eqn:Eq; [reflexivity|].
+      apply (invF_none _ _ IF). apply inside_spec in Hp as [r ->]. destruct r as [|x r'].
+      * rewrite app_nil_r, path_eqb_refl in Eq. discriminate.
+      * exists x, r'. reflexivity.
+    + intros p j. rewrite lookup_delent. destruct (path_eqb wd p); [discriminate|]. apply (invF_fresh _ _ IF).
+  - intros q Hq. unfold view_at. rewrite lookup_delent, (path_eqb_neq wd q) by (intros ->; rewrite inside_refl in Hq; discriminate).
+    reflexivity.
+Qed.
+
+Lemma push_blob_at_wd wd s title w good s' ok :
+  Inv0 wd (st_fs s) \/ InvF wd (st_fs s) -> lex_loc wd title = wd ->
+  push_blob cfg_fixed wd s title w good = (s', ok) ->
+  Keeps3 wd (st_fs s) (st_fs s').
+Proof.
+  intros I Hcw H.
+  assert (P3 : PreInv3 wd (st_fs s)) by (destruct I; [right; left | right; right]; assumption).
+  assert (Hne : wd <> []) by (destruct I as [I|I]; [exact (inv0_ne _ _ I) | exact (invF_ne _ _ I)]).
+  assert (HA : RealD (st_fs s) [] (removelast wd)) by (destruct I as [I|I]; [exact (inv0_anc _ _ I) | exact (invF_anc _ _ I)]).
+  unfold push_blob in H.
+  destruct (existsb (str_eqb title) (st_names s)).
+  { injection H as <- _. now apply Keeps3_refl. }
+  destruct (write_path cfg_fixed wd title) as [raw|] eqn:EW.
+  2:{ injection H as <- _. now apply Keeps3_refl. }
+  pose proof (write_path_lex _ _ _ _ EW) as [_ Ecl].
+  destruct (write_path_fixed _ _ _ EW) as (cl & -> & Hcl).
+  rewrite clean_abs_names in Ecl. rewrite Hcw in Ecl. subst cl.
+  unfold cached, remember in H. cbn [fixW fixK cfg_fixed negb andb] in H.
+  rewrite removelast_Nms, !clean_abs_names in H.
+  unfold ensure_write_dir in H. cbn [fixN cfg_fixed] in H.
+  destruct (strip_prefix wd (removelast wd)) as [rel|] eqn:SP.
+  { exfalso. apply strip_prefix_spec in SP. apply (prefix_not_wd wd wd rel Hne SP). reflexivity. }
+  destruct (mkdir_all (st_fs s) (Nms (removelast wd)) c11_ensure_dir_perm) as [f1|] eqn:M.
+  2:{ injection H as <- _. now apply Keeps3_refl. }
+  unfold mkdir_all in M. apply (mkdir_prefixes_noop (st_fs s) _ (removelast wd) [] f1 HA) in M. subst f1.
+  rewrite path_eqb_refl in H. cbn [negb andb] in H.
+  destruct (write_at (st_fs s) (Nms wd) w 438) as [f2|] eqn:Wr.
+  2:{ injection H as <- _. now apply Keeps3_refl. }
+  destruct (write_wd_keeps3 wd _ w f2 I Wr) as [IF2 S2].
+  destruct good.
+  { injection H as <- _. split; [right; right; exact IF2 | exact S2]. }
+  destruct (remove_at f2 wd) as [f3|] eqn:Rm; injection H as <- _; simpl.
+  - destruct (remove_wd_keeps3 wd f2 f3 IF2 Rm) as [I03 S3].
+    split; [right; left; exact I03 | eapply same_outside_trans; eauto].
+  - split; [right; right; exact IF2 | exact S2].
+Qed.
+
+Lemma push_blob_keeps3 wd s title w good s' ok :
+  PreInv3 wd (st_fs s) ->
+  push_blob cfg_fixed wd s title w good = (s', ok) ->
+  Keeps3 wd (st_fs s) (st_fs s').
+Proof.
+  intros P3 H. destruct (path_eqb (lex_loc wd title) wd) eqn:E.
+  - apply path_eqb_spec in E. destruct P3 as [I|[I0|IF]].
+    + apply Keeps0_Keeps3, Keeps_Keeps0. eapply push_blob_keeps; eauto.
+    + eapply push_blob_at_wd; eauto.
+    + eapply push_blob_at_wd; eauto.
+  - assert (Hcw : lex_loc wd title <> wd) by (intro E'; rewrite E', path_eqb_refl in E; discriminate).
+    destruct P3 as [I|[I0|IF]].
+    + apply Keeps0_Keeps3. eapply push_blob_keeps0; eauto. now left.
+    + apply Keeps0_Keeps3. eapply push_blob_keeps0; eauto. now right.
+    + (* a file at the working directory's place: nothing below it can be written *)
+      assert (P3 : PreInv3 wd (st_fs s)) by (right; right; exact IF).
+      unfold push_blob in H.
+      destruct (existsb (str_eqb title) (st_names s)).
+      { injection H as <- _. now apply Keeps3_refl. }
+      destruct (write_path cfg_fixed wd title) as [raw|] eqn:EW.
+      2:{ injection H as <- _. now apply Keeps3_refl. }
+      pose proof (write_path_lex _ _ _ _ EW) as [_ Ecl].
+      destruct (write_path_fixed _ _ _ EW) as (cl & -> & Hcl).
+      rewrite clean_abs_names in Ecl. rewrite <- Ecl in Hcw.
+      unfold cached, remember in H. cbn [fixW fixK cfg_fixed negb andb] in H.
+      rewrite removelast_Nms, !clean_abs_names in H.
+      destruct (strip_prefix wd (removelast cl)) as [rel|] eqn:SP.
+      2:{ destruct (parent_outside wd cl Hcl SP) as [E' _]. contradiction. }
+      apply strip_prefix_spec in SP. rewrite SP in H.
+      rewrite (ensure_write_dir_file wd (st_fs s) rel _ IF) in H.
+      injection H as <- _. now apply Keeps3_refl.
+Qed.
+
+Lemma push_dir_keeps3 wd pres cwd s title ts es how s' ok :
+  PreInv3 wd (st_fs s) ->
+  push_dir cfg_fixed pres wd cwd s title ts es how = (s', ok) ->
+  Keeps3 wd (st_fs s) (st_fs s').
+Proof.
+  intros [I|[I0|IF]] H.
+  - apply Keeps0_Keeps3. eapply push_dir_keeps0; eauto. now left.
+  - apply Keeps0_Keeps3. eapply push_dir_keeps0; eauto. now right.
+  - assert (P3 : PreInv3 wd (st_fs s)) by (right; right; exact IF).
+    unfold push_dir in H.
+    destruct (existsb (str_eqb title) (st_names s)).
+    { injection H as <- _. now apply Keeps3_refl. }
+    destruct (write_path cfg_fixed wd title) as [raw|] eqn:EW.
+    2:{ injection H as <- _. now apply Keeps3_refl. }
+    destruct (write_path_fixed _ _ _ EW) as (cl & -> & Hcl).
+    unfold cached, remember in H. cbn [fixK cfg_fixed negb andb] in H.
+    rewrite clean_abs_names in H.
+    apply inside_spec in Hcl as [rel ->].
+    rewrite (ensure_write_dir_file wd (st_fs s) rel _ IF) in H.
+    injection H as <- _. now apply Keeps3_refl.
+Qed.
+
+Lemma restore_layers_keeps3 wd : forall layers s s' ok,
+  PreInv3 wd (st_fs s) ->
+  restore_layers cfg_fixed wd s layers = (s', ok) ->
+  Keeps3 wd (st_fs s) (st_fs s').
+Proof.
+  induction layers as [|[t c] r IH]; intros s s' ok I H.
+  - injection H as <- _. now apply Keeps3_refl.
+  - cbn [restore_layers] in H.
+    destruct t as [|t0 tt]; [now apply (IH s s' ok)|].
+    destruct (existsb (str_eqb (t0 :: tt)) (st_names s)); [now apply (IH s s' ok)|].
+    destruct (fetch s c) as [| |c']; [now apply (IH s s' ok) | injection H as <- _; now apply Keeps3_refl |].
+    destruct (push_blob cfg_fixed wd s (t0 :: tt) c' ((c' =? c)%N && negb (c =? 0)%N)) as [s1 ok1] eqn:P.
+    pose proof (push_blob_keeps3 _ _ _ _ _ _ _ I P) as K1.
+    destruct ok1.
+    + eapply Keeps3_trans; [exact K1|]. apply (IH s1 s' ok (proj1 K1) H).
+    + injection H as <- _. exact K1.
+Qed.
+
+Lemma push_keeps3 wd pres cwd s o s' ok :
+  PreInv3 wd (st_fs s) ->
+  push cfg_fixed pres wd cwd s o = (s', ok) ->
+  Keeps3 wd (st_fs s) (st_fs s').
+Proof.
+  intros I H. unfold push in H. destruct o as [t c|t ts es|layers|how t ts es].
+  - destruct t as [|t0 tt].
+    + destruct ((c =? 0)%N || existsb (str_eqb [0%N; c]) (st_names s)); injection H as <- _; now apply Keeps3_refl.
+    + eapply push_blob_keeps3; eauto.
+  - destruct t as [|t0 tt].
+    + injection H as <- _. now apply Keeps3_refl.
+    + eapply push_dir_keeps3; eauto.
+  - destruct (existsb (str_eqb (manifest_marker layers)) (st_names s)).
+    + injection H as <- _. now apply Keeps3_refl.
+    + apply (restore_layers_keeps3 wd layers (mkStore (st_fs s) (manifest_marker layers :: st_names s) (st_d2p s)) s' ok I H).
+  - destruct t as [|t0 tt].
+    + injection H as <- _. now apply Keeps3_refl.
+    + eapply push_dir_keeps3; eauto.
+Qed.
+
+Lemma pushes_keeps3 wd pres cwd : forall os s s' oks,
+  PreInv3 wd (st_fs s) ->
+  pushes cfg_fixed pres wd cwd s os = (s', oks) ->
+  Keeps3 wd (st_fs s) (st_fs s').
+Proof.
+  induction os as [|o os IH]; intros s s' oks I H.
+  - injection H as <- _. now apply Keeps3_refl.
+  - cbn [pushes] in H.
+    destruct (push cfg_fixed pres wd cwd s o) as [s1 ok] eqn:P.
+    destruct (pushes cfg_fixed pres wd cwd s1 os) as [s2 oks2] eqn:Ps.
+    injection H as <- _.
+    pose proof (push_keeps3 _ _ _ _ _ _ _ I P) as K1.
+    eapply Keeps3_trans; [exact K1|]. eapply IH; eauto. exact (proj1 K1).
+Qed.
+
+(* a named blob titled like the missing working directory makes it a regular file; a later push
+   below it fails, one that fails verification removes it again *)
+Definition os_wd_as_file : list pushop :=
+  [PBlob (b ".") 5%N; PBlob (b "x") 6%N; PDir (b "t") [] [EDir (b "t/a") 493%N]; PBlob (b "/r/w") 0%N; PBlob (b "x") 7%N].
+
+Lemma wd_as_file_ok :
+  snd (pushes cfg_fixed false wd0 cwd0 (mkStore fs3 [] []) os_wd_as_file) = [true; false; false; false; true] /\
+  lookup (st_fs (fst (pushes cfg_fixed false wd0 cwd0 (mkStore fs3 [] []) os_wd_as_file))) wd0 = Some NDir /\
+  view_at (st_fs (fst (pushes cfg_fixed false wd0 cwd0 (mkStore fs3 [] []) os_wd_as_file))) [b "victim"] = view_at fs3 [b "victim"].
+Proof. vm_compute. repeat split. Qed.
